@@ -221,3 +221,59 @@ def _run_annot_coarse(kf):
 def _run_annot_coarse_fault(kf):
     from . import project
     return any(project.run_resolve(w["text"], last_all_atom=False)["outcome"] != w["expected"] for w in kf["witness"])
+
+
+def _frag_tokens(record):
+    rf = record.get("record_fields") or record
+    return [t for _, toks in (rf.get("frags") or []) for t in [toks]]
+
+
+@scope("squash.shared_aromatic_atom")
+def _shared_aromatic(record):
+    """a '!' descriptor written on (or right behind) an aromatic atom of some fragment"""
+    for toks in _frag_tokens(record):
+        last_atom = None
+        pending_lead = []
+        for t in toks:
+            if t["k"] == "A":
+                last_atom = t
+                if pending_lead and t["ar"]:
+                    return True
+                pending_lead = []
+            elif t["k"] == "D" and t["v"] == "!":
+                if last_atom is None:
+                    pending_lead.append(t)
+                elif last_atom["ar"]:
+                    return True
+            elif t["k"] == ")":
+                # a descriptor behind a branch belongs to the anchor; be conservative: look at any aromatic atom
+                if any(x["k"] == "A" and x["ar"] for x in toks):
+                    last_atom = next(x for x in toks if x["k"] == "A" and x["ar"])
+    return False
+
+
+@scope("resolve.shared_atoms_present")
+def _shared_present(record):
+    rf = record.get("record_fields") or record
+    return any(t["k"] == "D" and t["v"] == "!" for _, toks in (rf.get("frags") or []) for t in toks)
+
+
+@witness_runner("resolve.outcome")
+def _run_resolve_outcome(kf):
+    from . import project
+    return any(project.run_resolve(w["text"])["outcome"] != w["expected_outcome"] for w in kf["witness"])
+
+
+@witness_runner("resolve.atomnames")
+def _run_resolve_atomnames(kf):
+    from . import project
+    for w in kf["witness"]:
+        o = project.run_resolve(w["text"])
+        if o["outcome"] != "ok":
+            return True
+        nodes = o["steps"][0]["fine"]["nodes"]
+        for k in {x for n in nodes for x in n["fragid"]}:
+            names = [n["name"] for n in nodes if k in n["fragid"]]
+            if len(names) != len(set(names)):
+                return True
+    return False
